@@ -34,6 +34,8 @@ type XSpec struct {
 	CheckState func(c *Case, obj interface{}, path []int)
 	Depth      int
 	MaxStates  int
+	// Workers caps the parallelism (1 when the object under test is process-global state).
+	Workers int
 }
 
 // XResult is what Explore covered.
@@ -64,6 +66,11 @@ func (r *Run) Explore(x XSpec) XResult {
 		return res
 	}
 
+	if x.Workers > 0 && x.Workers < r.Workers {
+		saved := r.Workers
+		r.Workers = x.Workers
+		defer func() { r.Workers = saved }()
+	}
 	seen := map[string]bool{}
 	init := x.New()
 	s0 := x.Snap(init)
